@@ -1660,6 +1660,107 @@ def _record_objects(fn):
     return False
 
 
+def _multi_bound_records(fn):
+    """r = _Rec(a, b)  in one branch,  r = _Rec(c, d)  in another, r only read through its fields:   r__x = a ; r__y = b  /  r__x = c ; r__y = d   and r.x -> r__x
+    (every binding of r is a constructor call of the same record class: the field locals are bound exactly where r was)"""
+    if not _RECORDS:
+        return False
+    info = _FnInfo(fn)
+    stores = {}
+    for n in ast.walk(fn):
+        if isinstance(n, ast.Name) and isinstance(n.ctx, (ast.Store, ast.Del)):
+            stores.setdefault(n.id, []).append(n)
+    if any(isinstance(d, (ast.FunctionDef, ast.Lambda, ast.ClassDef)) and d is not fn for d in ast.walk(fn)):
+        nested_names = {y.id for d in ast.walk(fn) if isinstance(d, (ast.FunctionDef, ast.Lambda, ast.ClassDef)) and d is not fn for y in ast.walk(d) if isinstance(y, ast.Name)}
+    else:
+        nested_names = set()
+    for name, sts in stores.items():
+        if len(sts) < 2 or name in info.params or name in nested_names:
+            continue
+        asgs = []
+        cls = None
+        ok = True
+        for s_ in sts:
+            par = info.parents.get(id(s_))
+            if not (isinstance(par, ast.Assign) and par.targets == [s_] and isinstance(par.value, ast.Call) and isinstance(par.value.func, ast.Name) and par.value.func.id in _RECORDS):
+                ok = False
+                break
+            if cls not in (None, par.value.func.id) or par.value.func.id in info.counts or par.value.func.id in info.params:
+                ok = False
+                break
+            cls = par.value.func.id
+            asgs.append(par)
+        if not ok or cls is None:
+            continue
+        fields, defaults, kind = _RECORDS[cls]
+        plans = []
+        for a in asgs:
+            v = a.value
+            if any(isinstance(x, ast.Starred) for x in v.args) or any(k.arg is None or k.arg not in fields for k in v.keywords) or len(v.args) > len(fields):
+                ok = False
+                break
+            bound = dict(zip(fields, v.args))
+            if any(k.arg in bound for k in v.keywords):
+                ok = False
+                break
+            order_ = [f for f, _ in zip(fields, v.args)] + [k.arg for k in v.keywords]
+            bound.update({k.arg: k.value for k in v.keywords})
+            for f in fields:
+                if f not in bound:
+                    if f not in defaults:
+                        ok = False
+                        break
+                    bound[f] = copy.deepcopy(defaults[f])
+                    order_.append(f)
+            plans.append((a, bound, order_))
+        if not ok:
+            continue
+        repl = {}
+        for o in info.loads(name):
+            par = info.parents.get(id(o))
+            if isinstance(par, ast.Attribute) and par.value is o and par.attr in fields and isinstance(par.ctx, ast.Load):
+                repl[id(par)] = par.attr
+            elif kind == 'tuple' and isinstance(par, ast.Subscript) and par.value is o and isinstance(par.ctx, ast.Load) and _const_key(par.slice) is not None \
+                    and _const_key(par.slice)[0] == 'int' and -len(fields) <= _const_key(par.slice)[1] < len(fields):
+                repl[id(par)] = fields[_const_key(par.slice)[1]]
+            else:
+                ok = False
+                break
+        if not ok or not repl:
+            continue
+        existing = {n.id for n in ast.walk(fn) if isinstance(n, ast.Name)} | info.params
+        if any('%s__%s' % (name, f) in existing for f in fields):
+            continue
+
+        class Rp(ast.NodeTransformer):
+            def visit_Attribute(self, n):
+                if id(n) in repl:
+                    return ast.copy_location(ast.Name(id='%s__%s' % (name, repl[id(n)]), ctx=ast.Load()), n)
+                return self.generic_visit(n)
+
+            def visit_Subscript(self, n):
+                if id(n) in repl:
+                    return ast.copy_location(ast.Name(id='%s__%s' % (name, repl[id(n)]), ctx=ast.Load()), n)
+                return self.generic_visit(n)
+        Rp().visit(fn)
+        for a, bound, order_ in plans:
+            new = [ast.copy_location(ast.Assign(targets=[ast.Name(id='%s__%s' % (name, f), ctx=ast.Store())], value=bound[f]), a) for f in order_]
+            for n in ast.walk(fn):
+                for fld in ('body', 'orelse', 'finalbody'):
+                    v = getattr(n, fld, None)
+                    if isinstance(v, list) and any(x is a for x in v):
+                        i = [j for j, x in enumerate(v) if x is a][0]
+                        v[i:i + 1] = new
+                if isinstance(n, ast.Try):
+                    for h in n.handlers:
+                        if any(x is a for x in h.body):
+                            i = [j for j, x in enumerate(h.body) if x is a][0]
+                            h.body[i:i + 1] = new
+        ast.fix_missing_locations(fn)
+        return True
+    return False
+
+
 def _first_match_loops(fn):
     """for T in LITERAL: if TEST: BODY ; break   [else: ELSE]     ->   if TEST[T:=e1]: BODY[T:=e1] elif TEST[T:=e2]: ... else: ELSE
     and the loop without break over a literal of tuples:  for a, b in ((x, y), (u, v)): BODY  ->  BODY[a:=x, b:=y] ; BODY[a:=u, b:=v]"""
@@ -3259,6 +3360,8 @@ def simplify_function(fn, ctx, inliner, cls):
         elif _record_dicts(fn):
             changed = True
         elif _record_objects(fn):
+            changed = True
+        elif _multi_bound_records(fn):
             changed = True
         elif _local_closures(fn, inliner, cls):
             changed = True
